@@ -72,6 +72,11 @@ func dumpMeta(m *parse.Meta) string {
 				k = "i"
 			}
 			for _, n := range d.Names {
+				if n.Name == "_" {
+					// as in a Go var declaration, the blank identifier declares nothing: a "_" in the patch is
+					// ordinary code and matches only "_"
+					continue
+				}
 				if _, dup := kinds[n.Name]; !dup {
 					names = append(names, n.Name)
 				}
@@ -135,6 +140,9 @@ func runEngineCase(c Case) (out engineOut) {
 		prog, err := parse.Parse(fset, name, []byte(p))
 		if err != nil {
 			out.skip = "patch-parse: " + err.Error()
+			if rejectedForAnElision(p, err) {
+				out.skip = "front-reject: " + err.Error()
+			}
 			return
 		}
 		eprog, err := engine.Compile(fset, prog)
@@ -154,6 +162,25 @@ func runEngineCase(c Case) (out engineOut) {
 	front := "?"
 	if c.FragKind != "" && len(pchanges) == 1 {
 		front = frontVerdict(fset, pchanges[0], c)
+	}
+	// the text-only oracle, for patches of any origin: one patch file per entry of c.Patches
+	if front != "0" {
+		off := 0
+		for _, ptxt := range c.Patches {
+			n := len(splitChangesText(ptxt))
+			if off+n > len(pchanges) {
+				break
+			}
+			switch frontGeneral(fset, c.ID, ptxt, pchanges[off:off+n]) {
+			case "0":
+				front = "0"
+			case "1":
+				if front == "?" {
+					front = "1"
+				}
+			}
+			off += n
+		}
 	}
 
 	var sb strings.Builder
